@@ -285,7 +285,9 @@ def lists_for(name, universe, recommended):
     other = others[0] if others else "HS256"
     rec_other = sorted(r for r in recommended if r != name)[0]
     return [("absent", None), ("empty", []), ("single-self", [name] if isinstance(name, str) else [other]), ("single-other", [other]),
-            ("all", list(universe)), ("subset-with", [rec_other, name] if isinstance(name, str) else [rec_other]), ("subset-without", [rec_other, other])]
+            ("all", list(universe)), ("subset-with", [rec_other, name] if isinstance(name, str) else [rec_other]), ("subset-without", [rec_other, other]),
+            # lists made of recommended names only (one, all but the name): they restrict like any other list
+            ("recommended-one", [rec_other]), ("recommended-without", sorted(r for r in recommended if r != name))]
 
 
 def run_any_recipient_cell(cell) -> tuple:
@@ -414,7 +416,7 @@ def _matrix(part):
                 if L:
                     if shape in ("single-self", "subset-with", "all"):
                         L = list(dict.fromkeys(L + fixed))          # the other two names are allowed: only `name` decides
-                    elif shape in ("single-other", "subset-without"):
+                    elif shape in ("single-other", "subset-without", "recommended-one", "recommended-without"):
                         L = [x for x in dict.fromkeys(L + fixed) if x != name]
                 for style in (["default"] if L is None else ["algorithms", "registry", "both"] if L else ["algorithms", "registry"]):
                     for op in ("encrypt", "decrypt"):
